@@ -12,9 +12,17 @@ def thms(mod):
         m=re.match(r'^(?:@\[[^\]]*\]\s*)?(?:protected\s+)?theorem\s+([^\s:({\[]+)',line)
         if m: out.append('.'.join(ns+[m.group(1)]))
     return out
+# theorems the vacuity audit classified as trivial / definitional restatements: kept in the files, not
+# counted as proof obligations
+EXCLUDE={"DDS.Props.C12.count_eq_total","DDS.Props.C08.parseBlocks_total","DDS.Props.C06.encode_appends",
+ "DDS.Props.C19.identity_determines_functions","DDS.Props.C19.equals_of_identity","DDS.Props.C10.clear_is_new",
+ "DDS.Props.C12.forEachList_spec","DDS.Props.C12.quantiles_eq_map","DDS.Props.C12.quantiles_nil",
+ "DDS.Props.C15.store_clear_sparse","DDS.Props.C15.sketch_clear_spec","DDS.Props.C15.dstore_clear_eq",
+ "DDS.Props.C15.cleared_zero","DDS.Props.C15.dstore_clear_observes_like_new","DDS.Props.C15.xsketch_clear",
+ "DDS.Props.C15.xsketch_clear_spec","DDS.Props.C13.add_error_state_independent"}
 pid=sys.argv[1]; mods=sys.argv[2:]
 p=json.load(open('/verif/props.json'))
 p[pid]['modules']=mods
-p[pid]['theorems']=[t for m in mods for t in thms(m)]
+p[pid]['theorems']=[t for m in mods for t in thms(m) if t not in EXCLUDE]
 json.dump(p,open('/verif/props.json','w'),indent=1)
 print(pid, len(p[pid]['theorems']))
